@@ -5,7 +5,7 @@ from common import hx
 from hexlib import HexaryTrie, keccak, Boom, BOOMS, boom, WriteFailed, FailingDict
 
 ID = "C04"
-LEAN_IMPORTS = ["PyTrie.Props.C04", "PyTrie.Props.C04History", "PyTrie.Props.RawLevel", "PyTrie.Props.NonVacuity", "PyTrie.Props.FreeExec"]
+LEAN_IMPORTS = ["PyTrie.Props.C04", "PyTrie.Props.C04History", "PyTrie.Props.RawLevel", "PyTrie.Props.NonVacuity", "PyTrie.Props.FreeExec", "PyTrie.Props.NonVacuity8"]
 THEOREMS = [
     "PyTrie.Props.C04.set_writes_addressed",
     "PyTrie.Props.C04.delete_writes_addressed",
@@ -13,6 +13,9 @@ THEOREMS = [
     "PyTrie.Props.C04.history_complete_for_all_versions",
     "PyTrie.Props.C04.history_old_roots_readable",
     "PyTrie.Props.C04.history_preserves_every_binding",
+    "PyTrie.Props.NonVacuity8.old_root_readable",
+    "PyTrie.Props.NonVacuity8.old_root_witness",
+    "PyTrie.Props.NonVacuity8.old_root_eval",
     "PyTrie.Props.C04.failed_op_keeps_roots",
     "PyTrie.Props.C04.batch_commit_append_only",
     "PyTrie.Props.C04.old_root_still_readable",
